@@ -13,8 +13,8 @@ def own(name, script, finding, detail=None):
 
 
 def run(tier, seed):
-    cfgs = ["three-ops", "dup-tag", "flush-twice", "flush-basic", "clunk-held"] if tier == "quick" else \
-        ["three-ops", "dup-tag", "tag-reuse", "bad-frame", "flush-self", "flush-basic", "flush-twice", "flush-chain", "clunk-held"]
+    cfgs = ["mixed-ops", "dup-tag", "flush-twice", "flush-basic", "clunk-held"] if tier == "quick" else \
+        ["three-ops", "mixed-ops", "dup-tag", "tag-reuse", "bad-frame", "flush-self", "flush-basic", "flush-twice", "flush-chain", "clunk-held"]
     return connloop.run("C06", tier, seed, cfgs, own, RULE, 150 if tier == "quick" else None,
                         batch=(64, 10) if tier == "quick" else (64, 250))
 
